@@ -1511,7 +1511,9 @@ impl CompileState<'_> {
                         scrutinee,
                         arms,
                     })),
-                    vtype: expr_type.assume("expression must have type")?,
+                    // A match expression without arms (only possible when the
+                    // scrutinee's type has no values) has no value.
+                    vtype: expr_type.ok_or_else(|| self.err(MissingDefaultPattern(span)))?,
                     span,
                 })
             }
